@@ -3067,3 +3067,8 @@ mod tests {
         assert_eq!(crc, 0x1F9E046A);
     }
 }
+
+// verification hook (guard: cfg(kani), set only by `cargo kani`): harness module supplied by /verif
+#[cfg(kani)]
+#[path = "verif_kani_archive.rs"]
+mod verif_kani;
